@@ -390,8 +390,10 @@ Inductive stmt :=
 | Scope (a : stmt)               (* body of an inlined closure: return ends the closure *)
 | SetFlag (x : string) (v : bool)       (* local bool assigned constants only *)
 | IfFlag (x : string) (a b : stmt)      (* if x {a} else {b} *)
-| Then (a b : stmt).             (* a, then b even if a panicked: unwinding of defers.
+| Then (a b : stmt)              (* a, then b even if a panicked: unwinding of defers.
                                     Never emitted by the translator. *)
+| Mark (t : string).             (* an event an atomic section is declared about: a call such as
+                                    of.locks.Test(...), a read or write of a field *)
 
 (* The translator's vocabulary. *)
 Definition Lock (l : string) := Acq (MW, l).
@@ -432,14 +434,28 @@ Fixpoint nodefer (s : stmt) : bool :=
 Fixpoint unwind (ds : list stmt) : stmt :=
   match ds with [] => Skip | d :: t => Then (Scope d) (unwind t) end.
 
+(* An atomic section of a function: from every event [as_a] up to the next
+   event [as_b] (or to the end of the function body when [as_b] does not
+   occur on the path; just the event itself when [as_b = None]) the mutex
+   [as_lock] is held continuously -- exclusively, or at least shared when
+   [as_shared] -- by the function itself: it is held at [as_a] and at
+   [as_b], and in between the function neither releases it nor calls a
+   function whose summary mentions it (by the floor theorem no other callee
+   can take it below the level it has at the call). *)
+Record asec := mkAsec { as_a : string; as_b : option string; as_lock : string; as_shared : bool }.
+
+Definition as_items (e : asec) : list item :=
+  if as_shared e then [(MW, as_lock e); (MR, as_lock e)] else [(MW, as_lock e)].
+
 Record summary := mkSum {
   s_delta : smset;          (* net effect on the caller, in the callee's names *)
   s_dirty : list string;    (* LockPile parameters it may add locks to *)
   s_pre : smset;            (* entry assumption: mutexes the caller holds when it calls *)
   s_plow : smset;           (* when it panics: its net effect on every mutex is at least -s_plow *)
-  s_panics : bool }.        (* may end in a panic (explicit panic statements) *)
+  s_panics : bool;          (* may end in a panic (explicit panic statements) *)
+  s_atomic : list asec }.   (* declared atomic sections of the function *)
 
-Definition neutral : summary := mkSum [] [] [] [] false.
+Definition neutral : summary := mkSum [] [] [] [] false [].
 
 Definition program := list (string * (stmt * summary)).
 
@@ -456,9 +472,10 @@ Record frame := mkF {
   held : smset;                     (* signed, relative to function entry *)
   flags : list (string * bool);
   defers : list stmt;
-  slack : smset }.                  (* declared panic bounds (s_plow) of the callees that have panicked *)
+  slack : smset;                    (* declared panic bounds (s_plow) of the callees that have panicked *)
+  mon : list nat }.                 (* atomic sections (indices into s_atomic) that are open *)
 
-Definition frame0 : frame := mkF [] [] [] [].
+Definition frame0 : frame := mkF [] [] [] [] [].
 
 Inductive outcome :=
 | ONormal | OBreak | OContinue | OReturn
@@ -504,23 +521,81 @@ Definition pre_met (pre sl h rp : smset) : bool :=
 Definition call_slack (o : outcome) (rplow sl : smset) : smset :=
   match o with OPanicC => rplow ++ sl | _ => sl end.
 
+(* What the running function contributes to the meaning of its statements. *)
+Record ctx := mkCtx { c_pre : smset; c_atomic : list asec }.
+Definition ctx_of (sm : summary) : ctx := mkCtx (s_pre sm) (s_atomic sm).
+
+(* one of [its] is held *)
+Definition holds (pre sl h : smset) (its : list item) : bool :=
+  existsb (fun i => 0 <? cnt h i + cnt pre i + cnt sl i) its.
+
+Definition is_b (e : asec) (t : string) : bool :=
+  match as_b e with Some b => String.eqb b t | None => false end.
+
+Fixpoint indexed {A} (n : nat) (l : list A) : list (nat * A) :=
+  match l with [] => [] | x :: t => (n, x) :: indexed (S n) t end.
+
+(* at an event that opens or closes a section the mutex must be held *)
+Definition mark_ok (c : ctx) (sl h : smset) (t : string) : bool :=
+  forallb (fun e => if String.eqb (as_a e) t || is_b e t then holds (c_pre c) sl h (as_items e) else true)
+          (c_atomic c).
+
+Definition is_open (m : list nat) (k : nat) : bool := existsb (Nat.eqb k) m.
+
+Definition mark_mon (c : ctx) (m : list nat) (t : string) : list nat :=
+  fold_left (fun m ke =>
+               let e := snd ke in
+               if is_b e t then filter (fun j => negb (Nat.eqb j (fst ke))) m
+               else if String.eqb (as_a e) t
+                    then match as_b e with
+                         | Some _ => if is_open m (fst ke) then m else fst ke :: m
+                         | None => m
+                         end
+                    else m)
+            (indexed 0 (c_atomic c)) m.
+
+Definition open_locks (c : ctx) (m : list nat) : list string :=
+  map (fun k => match nth_error (c_atomic c) k with Some e => as_lock e | None => EmptyString end) m.
+
+(* releasing the mutex of an open section breaks it *)
+Definition rel_breaks (c : ctx) (m : list nat) (i : item) : bool :=
+  checked i && existsb (String.eqb (snd i)) (open_locks c m).
+
+Definition rel_ok (c : ctx) (sl : smset) (m : list nat) (h : smset) (i : item) : bool :=
+  can_rel (c_pre c) sl h i && negb (rel_breaks c m i).
+
+(* so does a call of a function whose summary mentions it *)
+Definition sum_locks (sg : subst) (sm : summary) : list string :=
+  map (fun e => snd (rename sg (fst e))) (s_pre sm ++ s_delta sm ++ s_plow sm).
+
+Definition call_breaks (c : ctx) (m : list nat) (sg : subst) (smc : summary) : bool :=
+  existsb (fun l => existsb (String.eqb l) (sum_locks sg smc)) (open_locks c m).
+
+Definition call_ok (c : ctx) (sl : smset) (m : list nat) (h : smset) (sg : subst) (smc : summary) : bool :=
+  pre_met (c_pre c) sl h (map_items (rename sg) (s_pre smc)) && negb (call_breaks c m sg smc).
+
 Section Semantics.
 Variable prog : program.
 
 (* [exec pre s fr o fr']: statement [s] of a function entered under the
    entry assumption [pre]. *)
-Inductive exec : smset -> stmt -> frame -> outcome -> frame -> Prop :=
+Inductive exec : ctx -> stmt -> frame -> outcome -> frame -> Prop :=
 | E_Skip pre fr : exec pre Skip fr ONormal fr
-| E_Acq pre i fr : exec pre (Acq i) fr ONormal (mkF ((i, 1) :: held fr) (flags fr) (defers fr) (slack fr))
+| E_Acq pre i fr : exec pre (Acq i) fr ONormal (mkF ((i, 1) :: held fr) (flags fr) (defers fr) (slack fr) (mon fr))
 | E_Rel pre i fr :
-    can_rel pre (slack fr) (held fr) i = true ->
-    exec pre (Rel i) fr ONormal (mkF ((i, -1) :: held fr) (flags fr) (defers fr) (slack fr))
+    rel_ok pre (slack fr) (mon fr) (held fr) i = true ->
+    exec pre (Rel i) fr ONormal (mkF ((i, -1) :: held fr) (flags fr) (defers fr) (slack fr) (mon fr))
 | E_RelFault pre i fr :
-    can_rel pre (slack fr) (held fr) i = false -> exec pre (Rel i) fr OFault fr
+    rel_ok pre (slack fr) (mon fr) (held fr) i = false -> exec pre (Rel i) fr OFault fr
+| E_Mark pre t fr :
+    mark_ok pre (slack fr) (held fr) t = true ->
+    exec pre (Mark t) fr ONormal (mkF (held fr) (flags fr) (defers fr) (slack fr) (mark_mon pre (mon fr) t))
+| E_MarkFault pre t fr :
+    mark_ok pre (slack fr) (held fr) t = false -> exec pre (Mark t) fr OFault fr
 | E_PileUnlockAll pre p fr :
-    exec pre (PileUnlockAll p) fr ONormal (mkF (clear_pile p (held fr)) (flags fr) (defers fr) (slack fr))
-| E_Defer pre s fr : exec pre (Defer s) fr ONormal (mkF (held fr) (flags fr) (s :: defers fr) (slack fr))
-| E_SetFlag pre x v fr : exec pre (SetFlag x v) fr ONormal (mkF (held fr) ((x, v) :: flags fr) (defers fr) (slack fr))
+    exec pre (PileUnlockAll p) fr ONormal (mkF (clear_pile p (held fr)) (flags fr) (defers fr) (slack fr) (mon fr))
+| E_Defer pre s fr : exec pre (Defer s) fr ONormal (mkF (held fr) (flags fr) (s :: defers fr) (slack fr) (mon fr))
+| E_SetFlag pre x v fr : exec pre (SetFlag x v) fr ONormal (mkF (held fr) ((x, v) :: flags fr) (defers fr) (slack fr) (mon fr))
 | E_IfFlagT pre x a b fr o fr' :
     lookup_flag x (flags fr) <> Some false -> exec pre a fr o fr' -> exec pre (IfFlag x a b) fr o fr'
 | E_IfFlagF pre x a b fr o fr' :
@@ -552,27 +627,27 @@ Inductive exec : smset -> stmt -> frame -> outcome -> frame -> Prop :=
 | E_Scope pre a fr o fr' : exec pre a fr o fr' -> exec pre (Scope a) fr (descope o) fr'
 | E_Call pre f sg body sm fr o1 fr1 o2 fr2 :
     assoc f prog = Some (body, sm) ->
-    pre_met pre (slack fr) (held fr) (map_items (rename sg) (s_pre sm)) = true ->
-    exec (s_pre sm) body frame0 o1 fr1 -> o1 <> OBreak -> o1 <> OContinue -> o1 <> OFault ->
-    exec (s_pre sm) (unwind (defers fr1)) (mkF (held fr1) (flags fr1) [] (slack fr1)) o2 fr2 ->
+    call_ok pre (slack fr) (mon fr) (held fr) sg sm = true ->
+    exec (ctx_of sm) body frame0 o1 fr1 -> o1 <> OBreak -> o1 <> OContinue -> o1 <> OFault ->
+    exec (ctx_of sm) (unwind (defers fr1)) (mkF (held fr1) (flags fr1) [] (slack fr1) []) o2 fr2 ->
     exec pre (Call f sg) fr (call_outcome o1 o2)
          (mkF (map_items (rename sg) (held fr2) ++ held fr) (flags fr) (defers fr)
-              (call_slack (call_outcome o1 o2) (map_items (rename sg) (s_plow sm)) (slack fr)))
+              (call_slack (call_outcome o1 o2) (map_items (rename sg) (s_plow sm)) (slack fr)) (mon fr))
 | E_CallFault pre f sg body sm fr fr1 :
     assoc f prog = Some (body, sm) ->
-    exec (s_pre sm) body frame0 OFault fr1 ->
+    exec (ctx_of sm) body frame0 OFault fr1 ->
     exec pre (Call f sg) fr OFault fr
 | E_CallPre pre f sg body sm fr :
     assoc f prog = Some (body, sm) ->
-    pre_met pre (slack fr) (held fr) (map_items (rename sg) (s_pre sm)) = false ->
+    call_ok pre (slack fr) (mon fr) (held fr) sg sm = false ->
     exec pre (Call f sg) fr OFault fr.
 
 (* One complete run of function [f]: its body, then its deferred statements. *)
 Definition fn_run (f : string) (sm : summary) (o1 : outcome) (fr1 : frame) (o2 : outcome) (fr2 : frame) : Prop :=
   exists body,
     assoc f prog = Some (body, sm) /\
-    exec (s_pre sm) body frame0 o1 fr1 /\ o1 <> OBreak /\ o1 <> OContinue /\ o1 <> OFault /\
-    exec (s_pre sm) (unwind (defers fr1)) (mkF (held fr1) (flags fr1) [] (slack fr1)) o2 fr2.
+    exec (ctx_of sm) body frame0 o1 fr1 /\ o1 <> OBreak /\ o1 <> OContinue /\ o1 <> OFault /\
+    exec (ctx_of sm) (unwind (defers fr1)) (mkF (held fr1) (flags fr1) [] (slack fr1) []) o2 fr2.
 
 (* ... that returns (does not panic); [h] is the net effect on the locks held. *)
 Definition fn_returns (f : string) (h : smset) : Prop :=
@@ -586,7 +661,7 @@ Definition fn_returns (f : string) (h : smset) : Prop :=
 Definition fn_faults (f : string) : Prop :=
   exists body sm,
     assoc f prog = Some (body, sm) /\
-    ((exists fr1, exec (s_pre sm) body frame0 OFault fr1) \/
+    ((exists fr1, exec (ctx_of sm) body frame0 OFault fr1) \/
      (exists o1 fr1 fr2, fn_run f sm o1 fr1 OFault fr2)).
 
 (* ... that ends in a panic raised by the function itself (in its body or in
@@ -625,9 +700,10 @@ Record astate := mkA {
   a_defers : list stmt;
   a_dirty : list string;     (* piles that may hold additional, unknown locks *)
   a_up : bool;               (* a callee panicked: every mutex may be held more often than [a_held] says *)
-  a_slack : smset }.
+  a_slack : smset;
+  a_mon : list nat }.
 
-Definition a0 : astate := mkA [] [] [] [] false [].
+Definition a0 : astate := mkA [] [] [] [] false [] [].
 Definition outs := list (outcome * astate).
 
 Definition outcome_eqb (a b : outcome) : bool :=
@@ -660,7 +736,8 @@ Definition aeqb (a b : astate) : bool :=
   sm_eqb (a_held a) (a_held b) && flags_eqb (a_flags a) (a_flags b)
   && defers_eqb (a_defers a) (a_defers b)
   && subset (a_dirty a) (a_dirty b) && subset (a_dirty b) (a_dirty a)
-  && Bool.eqb (a_up a) (a_up b) && sm_eqb (a_slack a) (a_slack b).
+  && Bool.eqb (a_up a) (a_up b) && sm_eqb (a_slack a) (a_slack b)
+  && (if list_eq_dec Nat.eq_dec (a_mon a) (a_mon b) then true else false).
 
 Definition oeqb (x y : outcome * astate) : bool :=
   outcome_eqb (fst x) (fst y) && aeqb (snd x) (snd y).
@@ -711,21 +788,21 @@ Definition back_edge_ok (a : astate) (oa : outcome * astate) : bool :=
   | _ => true
   end.
 
-Fixpoint ai (pre : smset) (s : stmt) (a : astate) {struct s} : option outs :=
+Fixpoint ai (pre : ctx) (s : stmt) (a : astate) {struct s} : option outs :=
   match s with
   | Skip => Some [(ONormal, a)]
-  | Acq i => Some [(ONormal, mkA ((i, 1) :: a_held a) (a_flags a) (a_defers a) (a_dirty a) (a_up a) (a_slack a))]
+  | Acq i => Some [(ONormal, mkA ((i, 1) :: a_held a) (a_flags a) (a_defers a) (a_dirty a) (a_up a) (a_slack a) (a_mon a))]
   | Rel i =>
-    if can_rel pre (a_slack a) (a_held a) i
-    then Some [(ONormal, mkA ((i, -1) :: a_held a) (a_flags a) (a_defers a) (a_dirty a) (a_up a) (a_slack a))]
+    if rel_ok pre (a_slack a) (a_mon a) (a_held a) i
+    then Some [(ONormal, mkA ((i, -1) :: a_held a) (a_flags a) (a_defers a) (a_dirty a) (a_up a) (a_slack a) (a_mon a))]
     else None
   | PileUnlockAll p =>
     Some [(ONormal, mkA (clear_pile p (a_held a)) (a_flags a) (a_defers a)
-                        (filter (fun q => negb (String.eqb p q)) (a_dirty a)) (a_up a) (a_slack a))]
+                        (filter (fun q => negb (String.eqb p q)) (a_dirty a)) (a_up a) (a_slack a) (a_mon a))]
   | Defer d =>
-    if nodefer d then Some [(ONormal, mkA (a_held a) (a_flags a) (d :: a_defers a) (a_dirty a) (a_up a) (a_slack a))]
+    if nodefer d then Some [(ONormal, mkA (a_held a) (a_flags a) (d :: a_defers a) (a_dirty a) (a_up a) (a_slack a) (a_mon a))]
     else None
-  | SetFlag x v => Some [(ONormal, mkA (a_held a) ((x, v) :: a_flags a) (a_defers a) (a_dirty a) (a_up a) (a_slack a))]
+  | SetFlag x v => Some [(ONormal, mkA (a_held a) ((x, v) :: a_flags a) (a_defers a) (a_dirty a) (a_up a) (a_slack a) (a_mon a))]
   | IfFlag x p q =>
     match lookup_flag x (a_flags a) with
     | Some true => ai pre p a
@@ -750,6 +827,11 @@ Fixpoint ai (pre : smset) (s : stmt) (a : astate) {struct s} : option outs :=
     | None => None
     | Some o1 => option_map dedup (bind_then o1 (ai pre q))
     end
+  | Mark t =>
+    if mark_ok pre (a_slack a) (a_held a) t
+    then Some [(ONormal, mkA (a_held a) (a_flags a) (a_defers a) (a_dirty a) (a_up a) (a_slack a)
+                             (mark_mon pre (a_mon a) t))]
+    else None
   | Return => Some [(OReturn, a)]
   | Panic => Some [(OPanic, a)]
   | Break => Some [(OBreak, a)]
@@ -767,15 +849,15 @@ Fixpoint ai (pre : smset) (s : stmt) (a : astate) {struct s} : option outs :=
     match assoc f prog with
     | None => None
     | Some (_, sm) =>
-      if pre_met pre (a_slack a) (a_held a) (map_items (rename sg) (s_pre sm))
+      if call_ok pre (a_slack a) (a_mon a) (a_held a) sg sm
       then
         let dirty := map (rename_pile sg) (s_dirty sm) ++ a_dirty a in
         Some ((ONormal, mkA (map_items (rename sg) (s_delta sm) ++ a_held a) (a_flags a) (a_defers a)
-                            dirty (a_up a) (a_slack a))
+                            dirty (a_up a) (a_slack a) (a_mon a))
               :: (if s_panics sm
                   then [(OPanicC, mkA (neg (map_items (rename sg) (s_plow sm)) ++ a_held a)
                                       (a_flags a) (a_defers a) dirty true
-                                      (map_items (rename sg) (s_plow sm) ++ a_slack a))]
+                                      (map_items (rename sg) (s_plow sm) ++ a_slack a) (a_mon a))]
                   else []))
       else None
     end
@@ -814,7 +896,7 @@ Definition exit_ok (sm : summary) (oa : outcome * astate) : bool :=
   | OBreak | OContinue | OFault => false
   | _ =>
     let a1 := snd oa in
-    match ai (s_pre sm) (unwind (a_defers a1)) (mkA (a_held a1) (a_flags a1) [] (a_dirty a1) (a_up a1) (a_slack a1)) with
+    match ai (ctx_of sm) (unwind (a_defers a1)) (mkA (a_held a1) (a_flags a1) [] (a_dirty a1) (a_up a1) (a_slack a1) []) with
     | None => false
     | Some o2 => forallb (after_defers_ok sm (a_defers a1) (fst oa)) o2
     end
@@ -826,7 +908,7 @@ Definition sm_wf (sm : summary) : bool :=
 
 Definition fn_ok (body : stmt) (sm : summary) : bool :=
   sm_wf sm &&
-  match ai (s_pre sm) body a0 with
+  match ai (ctx_of sm) body a0 with
   | None => false
   | Some o1 => forallb (exit_ok sm) o1
   end.
@@ -845,7 +927,7 @@ Definition abs_rel (a : astate) (fr : frame) : Prop :=
       supp_in (a_dirty a) extra /\ (a_up a = false -> extra2 = []) /\ nonneg_checked extra2 /\
       sm_equiv (held fr) (a_held a ++ extra ++ extra2)) /\
   (forall x, lookup_flag x (flags fr) = lookup_flag x (a_flags a)) /\
-  defers fr = a_defers a /\ sm_equiv (slack fr) (a_slack a).
+  defers fr = a_defers a /\ sm_equiv (slack fr) (a_slack a) /\ mon fr = a_mon a.
 
 (* an abstract state only says "may be held more often" after a callee's panic *)
 Definition up_ok (a : astate) (o : outcome) (a' : astate) : Prop :=
@@ -882,17 +964,18 @@ Qed.
 
 Lemma aeqb_up a b : aeqb a b = true -> a_up a = a_up b.
 Proof.
-  unfold aeqb; rewrite !andb_true_iff. intros [[_ H] _]. apply eqb_prop, H.
+  unfold aeqb; rewrite !andb_true_iff. intros [[[_ H] _] _]. apply eqb_prop, H.
 Qed.
 
 Lemma abs_rel_aeqb a b fr : aeqb a b = true -> abs_rel a fr -> abs_rel b fr.
 Proof.
   intros Hq. pose proof (aeqb_up _ _ Hq) as Hup. revert Hq.
   unfold aeqb; rewrite !andb_true_iff.
-  intros [[[[[[Hh Hf] Hd] Hs1] Hs2] _] Hsl] [[extra [extra2 [Hsup [Hu [Hnn Heq]]]]] [Hfl [Hdf Hslk]]].
+  intros [[[[[[[Hh Hf] Hd] Hs1] Hs2] _] Hsl] Hmn] [[extra [extra2 [Hsup [Hu [Hnn Heq]]]]] [Hfl [Hdf [Hslk Hmon]]]].
   apply sm_eqb_sound in Hh. apply sm_eqb_sound in Hsl. pose proof (flags_eqb_sound _ _ Hf) as Hf'.
   unfold defers_eqb in Hd. destruct (list_eq_dec stmt_eq_dec _ _) as [Hd'|]; [|discriminate].
-  split; [|split; [|split]].
+  destruct (list_eq_dec Nat.eq_dec (a_mon a) (a_mon b)) as [Hm'|]; [|discriminate].
+  split; [|split; [|split; [|split]]]; [| | | | congruence].
   - exists extra, extra2. split; [|split; [|split]].
     + eapply supp_in_mono; [apply subset_sound, Hs1 | exact Hsup].
     + rewrite <- Hup; exact Hu.
@@ -983,7 +1066,7 @@ Definition all_ok : Prop :=
 
 Lemma abs_rel_0 : abs_rel a0 frame0.
 Proof.
-  split; [|split; [intro; reflexivity | split; [reflexivity | apply sm_equiv_refl]]].
+  split; [|split; [intro; reflexivity | split; [reflexivity | split; [apply sm_equiv_refl | reflexivity]]]].
   exists [], []. split; [intros e []|]. split; [reflexivity|]. split; [apply nonneg_checked_nil | apply sm_equiv_refl].
 Qed.
 
@@ -1029,7 +1112,30 @@ Proof.
 Qed.
 
 Lemma abs_slack a fr i : abs_rel a fr -> cnt (slack fr) i = cnt (a_slack a) i.
-Proof. intros [_ [_ [_ H]]]. apply H. Qed.
+Proof. intros [_ [_ [_ [H _]]]]. apply H. Qed.
+
+Lemma abs_mon a fr : abs_rel a fr -> mon fr = a_mon a.
+Proof. intros [_ [_ [_ [_ H]]]]. exact H. Qed.
+
+Lemma holds_mono pre a fr its :
+  abs_rel a fr -> (forall i, In i its -> checked i = true) ->
+  holds pre (a_slack a) (a_held a) its = true -> holds pre (slack fr) (held fr) its = true.
+Proof.
+  intros Hr Hc. unfold holds. rewrite !existsb_exists. intros [i [Hi H]].
+  exists i; split; [exact Hi|]. pose proof (abs_lower a fr i Hr (Hc i Hi)).
+  rewrite (abs_slack a fr i Hr), Z.ltb_lt in *. lia.
+Qed.
+
+Lemma as_items_checked e i : In i (as_items e) -> checked i = true.
+Proof. unfold as_items. destruct (as_shared e); cbn; intros [<- | [<- | []]] || intros [<- | []]; reflexivity. Qed.
+
+Lemma mark_ok_mono c a fr t :
+  abs_rel a fr -> mark_ok c (a_slack a) (a_held a) t = true -> mark_ok c (slack fr) (held fr) t = true.
+Proof.
+  intros Hr. unfold mark_ok. rewrite !forallb_forall. intros H e He. specialize (H e He).
+  destruct (String.eqb (as_a e) t || is_b e t); [|reflexivity].
+  exact (holds_mono _ _ _ _ Hr (as_items_checked e) H).
+Qed.
 
 Lemma can_rel_mono pre a fr i :
   abs_rel a fr -> can_rel pre (a_slack a) (a_held a) i = true -> can_rel pre (slack fr) (held fr) i = true.
@@ -1045,6 +1151,21 @@ Proof.
   intros Hr Hc. unfold pre_met. rewrite !forallb_forall. intros H e He.
   specialize (H e He). pose proof (abs_lower a fr (fst e) Hr (Hc e He)).
   rewrite (abs_slack a fr _ Hr). rewrite Z.leb_le in *. lia.
+Qed.
+
+Lemma rel_ok_mono c a fr i :
+  abs_rel a fr -> rel_ok c (a_slack a) (a_mon a) (a_held a) i = true -> rel_ok c (slack fr) (mon fr) (held fr) i = true.
+Proof.
+  intros Hr. unfold rel_ok. rewrite !andb_true_iff. intros [H1 H2]. rewrite (abs_mon a fr Hr).
+  split; [exact (can_rel_mono _ _ _ _ Hr H1) | exact H2].
+Qed.
+
+Lemma call_ok_mono c a fr sg smc :
+  abs_rel a fr -> (forall e, In e (map_items (rename sg) (s_pre smc)) -> checked (fst e) = true) ->
+  call_ok c (a_slack a) (a_mon a) (a_held a) sg smc = true -> call_ok c (slack fr) (mon fr) (held fr) sg smc = true.
+Proof.
+  intros Hr Hc. unfold call_ok. rewrite !andb_true_iff. intros [H1 H2]. rewrite (abs_mon a fr Hr).
+  split; [exact (pre_met_mono _ _ _ _ Hr Hc H1) | exact H2].
 Qed.
 
 Lemma sm_wf_pre sm sg e :
@@ -1119,24 +1240,33 @@ Proof.
   - (* Acq *)
     inversion Hai; subst. split; [discriminate|]. eexists; split; [left; reflexivity|].
     split; [|intro; auto].
-    destruct Hrel as [[extra [extra2 [Hs [Hu [Hnn He]]]]] [Hf [Hd Hsl]]].
-    split; [|split; [|split]]; cbn; auto.
+    destruct Hrel as [[extra [extra2 [Hs [Hu [Hnn He]]]]] [Hf [Hd [Hsl Hmn]]]].
+    split; [|split; [|split; [|split]]]; cbn; auto.
     exists extra, extra2. split; [|split; [|split]]; auto. apply sm_equiv_cons with (e := (i, 1)) in He; exact He.
   - (* Rel *)
-    destruct (can_rel pre (a_slack a0') (a_held a0') i) eqn:Hc; [|discriminate].
+    destruct (rel_ok pre (a_slack a0') (a_mon a0') (a_held a0') i) eqn:Hc; [|discriminate].
     inversion Hai; subst. split; [discriminate|]. eexists; split; [left; reflexivity|].
     split; [|intro; auto].
-    destruct Hrel as [[extra [extra2 [Hs [Hu [Hnn He]]]]] [Hf [Hd Hsl]]].
-    split; [|split; [|split]]; cbn; auto.
+    destruct Hrel as [[extra [extra2 [Hs [Hu [Hnn He]]]]] [Hf [Hd [Hsl Hmn]]]].
+    split; [|split; [|split; [|split]]]; cbn; auto.
     exists extra, extra2. split; [|split; [|split]]; auto. apply sm_equiv_cons with (e := (i, -1)) in He; exact He.
   - (* RelFault *)
-    destruct (can_rel pre (a_slack a0') (a_held a0') i) eqn:Hc; [|discriminate].
-    rewrite (can_rel_mono _ _ _ _ Hrel Hc) in H. discriminate.
+    destruct (rel_ok pre (a_slack a0') (a_mon a0') (a_held a0') i) eqn:Hc; [|discriminate].
+    rewrite (rel_ok_mono _ _ _ _ Hrel Hc) in H. discriminate.
+  - (* Mark *)
+    destruct (mark_ok pre (a_slack a0') (a_held a0') t) eqn:Hc; [|discriminate].
+    inversion Hai; subst. split; [discriminate|]. eexists; split; [left; reflexivity|].
+    split; [|intro; auto].
+    destruct Hrel as [Hh [Hf [Hd [Hsl Hmn]]]].
+    split; [|split; [|split; [|split]]]; cbn; auto. congruence.
+  - (* MarkFault *)
+    destruct (mark_ok pre (a_slack a0') (a_held a0') t) eqn:Hc; [|discriminate].
+    rewrite (mark_ok_mono _ _ _ _ Hrel Hc) in H. discriminate.
   - (* PileUnlockAll *)
     inversion Hai; subst. split; [discriminate|]. eexists; split; [left; reflexivity|].
     split; [|intro; auto].
-    destruct Hrel as [[extra [extra2 [Hs [Hu [Hnn He]]]]] [Hf [Hd Hsl]]].
-    split; [|split; [|split]]; cbn; auto.
+    destruct Hrel as [[extra [extra2 [Hs [Hu [Hnn He]]]]] [Hf [Hd [Hsl Hmn]]]].
+    split; [|split; [|split; [|split]]]; cbn; auto.
     exists (clear_pile p extra), (clear_pile p extra2). split; [|split; [|split]].
     + intros e Hin. apply filter_In in Hin as [Hin Hnp'].
       specialize (Hs e Hin). unfold in_piles in *. rewrite existsb_exists in *.
@@ -1152,29 +1282,29 @@ Proof.
     destruct (nodefer s); [|discriminate].
     inversion Hai; subst. split; [discriminate|]. eexists; split; [left; reflexivity|].
     split; [|intro; auto].
-    destruct Hrel as [Hh [Hf [Hd Hsl]]]. split; [|split; [|split]]; cbn; auto. congruence.
+    destruct Hrel as [Hh [Hf [Hd [Hsl Hmn]]]]. split; [|split; [|split; [|split]]]; cbn; auto. congruence.
   - (* SetFlag *)
     inversion Hai; subst. split; [discriminate|]. eexists; split; [left; reflexivity|].
     split; [|intro; auto].
-    destruct Hrel as [Hh [Hf [Hd Hsl]]]. split; [|split; [|split]]; cbn; auto.
+    destruct Hrel as [Hh [Hf [Hd [Hsl Hmn]]]]. split; [|split; [|split; [|split]]]; cbn; auto.
     intro y; unfold lookup_flag in *; cbn. destruct (String.eqb y x); auto.
   - (* IfFlagT *)
-    destruct Hrel as [Hh [Hf [Hd Hsl]]]. rewrite (Hf x) in H.
+    destruct Hrel as [Hh [Hf [Hd [Hsl Hmn]]]]. rewrite (Hf x) in H.
     destruct (lookup_flag x (a_flags a0')) as [[]|] eqn:Hl; try congruence.
-    + eapply IHexec; eauto. split; [|split; [|split]]; auto.
+    + eapply IHexec; eauto. split; [|split; [|split; [|split]]]; auto.
     + destruct (ai pre a a0') as [o1|] eqn:Hai1; [|discriminate].
       destruct (ai pre b a0') as [o2|] eqn:Hai2; [|discriminate].
       inversion Hai; subst.
-      destruct (IHexec a0' o1) as [Hnf [a' [Hin [Hr Hu]]]]; [split; [|split; [|split]]; auto | exact Hai1|].
+      destruct (IHexec a0' o1) as [Hnf [a' [Hin [Hr Hu]]]]; [split; [|split; [|split; [|split]]]; auto | exact Hai1|].
       split; [exact Hnf|]. apply (via_dedup (o1 ++ o2) o a'); auto. apply in_or_app; auto.
   - (* IfFlagF *)
-    destruct Hrel as [Hh [Hf [Hd Hsl]]]. rewrite (Hf x) in H.
+    destruct Hrel as [Hh [Hf [Hd [Hsl Hmn]]]]. rewrite (Hf x) in H.
     destruct (lookup_flag x (a_flags a0')) as [[]|] eqn:Hl; try congruence.
-    + eapply IHexec; eauto. split; [|split; [|split]]; auto.
+    + eapply IHexec; eauto. split; [|split; [|split; [|split]]]; auto.
     + destruct (ai pre a a0') as [o1|] eqn:Hai1; [|discriminate].
       destruct (ai pre b a0') as [o2|] eqn:Hai2; [|discriminate].
       inversion Hai; subst.
-      destruct (IHexec a0' o2) as [Hnf [a' [Hin [Hr Hu]]]]; [split; [|split; [|split]]; auto | exact Hai2|].
+      destruct (IHexec a0' o2) as [Hnf [a' [Hin [Hr Hu]]]]; [split; [|split; [|split; [|split]]]; auto | exact Hai2|].
       split; [exact Hnf|]. apply (via_dedup (o1 ++ o2) o a'); auto. apply in_or_app; auto.
   - (* IfL *)
     destruct (ai pre a a0') as [o1|] eqn:Hai1; [|discriminate].
@@ -1288,31 +1418,31 @@ Proof.
     + intro Hup. destruct (Hu1 Hup) as [? | ->]; auto.
   - (* Call *)
     rewrite H in Hai.
-    destruct (pre_met pre (a_slack a0') (a_held a0') (map_items (rename sg) (s_pre sm))) eqn:Hpm; [|discriminate].
+    destruct (call_ok pre (a_slack a0') (a_mon a0') (a_held a0') sg sm) eqn:Hpm; [|discriminate].
     inversion Hai; subst r; clear Hai.
     pose proof (Hall _ _ _ H) as Hok. unfold fn_ok in Hok.
     apply andb_true_iff in Hok as [Hwf Hok].
-    destruct (ai (s_pre sm) body a0) as [o1s|] eqn:Hb; [|discriminate].
+    destruct (ai (ctx_of sm) body a0) as [o1s|] eqn:Hb; [|discriminate].
     destruct (IHexec1 a0 o1s abs_rel_0 Hb) as [_ [a1 [Hin1 [Hr1 Hu1]]]].
     pose proof (proj1 (forallb_forall _ _) Hok _ Hin1) as Hx.
     unfold exit_ok in Hx; cbn [fst snd] in Hx.
-    destruct Hr1 as [Hh1 [Hf1 [Hd1 Hsl1]]].
-    assert (Hx' : match ai (s_pre sm) (unwind (a_defers a1)) (mkA (a_held a1) (a_flags a1) [] (a_dirty a1) (a_up a1) (a_slack a1)) with
+    destruct Hr1 as [Hh1 [Hf1 [Hd1 [Hsl1 Hmn1]]]].
+    assert (Hx' : match ai (ctx_of sm) (unwind (a_defers a1)) (mkA (a_held a1) (a_flags a1) [] (a_dirty a1) (a_up a1) (a_slack a1) []) with
                   | Some o2s => forallb (after_defers_ok sm (a_defers a1) o1) o2s
                   | None => false end = true) by (destruct o1; congruence).
     clear Hx.
-    destruct (ai (s_pre sm) (unwind (a_defers a1)) _) as [o2s|] eqn:Hu; [|discriminate].
+    destruct (ai (ctx_of sm) (unwind (a_defers a1)) _) as [o2s|] eqn:Hu; [|discriminate].
     rewrite Hd1 in IHexec2.
-    destruct (IHexec2 (mkA (a_held a1) (a_flags a1) [] (a_dirty a1) (a_up a1) (a_slack a1)) o2s) as [Hnf2 [a2 [Hin2 [Hr2 Hu2]]]];
-      [split; [|split; [|split]]; cbn; auto | exact Hu |].
+    destruct (IHexec2 (mkA (a_held a1) (a_flags a1) [] (a_dirty a1) (a_up a1) (a_slack a1) []) o2s) as [Hnf2 [a2 [Hin2 [Hr2 Hu2]]]];
+      [split; [|split; [|split; [|split]]]; cbn; auto | exact Hu |].
     pose proof (proj1 (forallb_forall _ _) Hx' _ Hin2) as Hy.
-    destruct Hrel as [[ex [ex2 [Hs [Hup [Hnn He]]]]] [Hf [Hd Hsl]]].
+    destruct Hrel as [[ex [ex2 [Hs [Hup [Hnn He]]]]] [Hf [Hd [Hsl Hmn]]]].
     destruct (call_case _ _ _ _ _ Hy H2 H3 H4) as [(Hco & _ & -> & Hfin) | (Hco & _ & Hpe)]; rewrite Hco.
     + (* the callee returns *)
       split; [discriminate|].
       destruct (final_ok_meets _ _ _ Hfin Hr2) as [[exc [Hsc Hec]] _].
       eexists; split; [left; reflexivity|]. split; [|intro; auto].
-      split; [|split; [|split]]; cbn; auto.
+      split; [|split; [|split; [|split]]]; cbn; auto.
       exists (map_items (rename sg) exc ++ ex), ex2. split; [|split; [|split]]; auto.
       * apply supp_in_app.
         -- eapply supp_in_mono; [|apply supp_in_rename, Hsc]. intros; apply in_or_app; auto.
@@ -1324,7 +1454,7 @@ Proof.
       unfold panic_exit_ok in Hpe. apply andb_true_iff in Hpe as [Hpe _].
       apply andb_true_iff in Hpe as [Hpan Hpl]. rewrite Hpan.
       eexists; split; [right; left; reflexivity|]. split; [|intro; right; reflexivity].
-      split; [|split; [|split]]; cbn; auto;
+      split; [|split; [|split; [|split]]]; cbn; auto;
         [| apply sm_equiv_app; [apply sm_equiv_refl | exact Hsl]].
       exists ex, ((map_items (rename sg) (held fr2) ++ map_items (rename sg) (s_plow sm)) ++ ex2). split; [|split; [|split]].
       * eapply supp_in_mono; [|exact Hs]. intros; apply in_or_app; auto.
@@ -1339,14 +1469,14 @@ Proof.
     exfalso.
     pose proof (Hall _ _ _ H) as Hok. unfold fn_ok in Hok.
     apply andb_true_iff in Hok as [Hwf Hok].
-    destruct (ai (s_pre sm) body a0) as [o1s|] eqn:Hb; [|discriminate].
+    destruct (ai (ctx_of sm) body a0) as [o1s|] eqn:Hb; [|discriminate].
     destruct (IHexec a0 o1s abs_rel_0 Hb) as [Hnf _]. congruence.
   - (* CallPre *)
     exfalso. rewrite H in Hai.
-    destruct (pre_met pre (a_slack a0') (a_held a0') (map_items (rename sg) (s_pre sm))) eqn:Hpm; [|discriminate].
+    destruct (call_ok pre (a_slack a0') (a_mon a0') (a_held a0') sg sm) eqn:Hpm; [|discriminate].
     pose proof (Hall _ _ _ H) as Hok. unfold fn_ok in Hok.
     apply andb_true_iff in Hok as [Hwf _].
-    rewrite (pre_met_mono _ _ _ _ Hrel (fun e => sm_wf_pre sm sg e Hwf) Hpm) in H0. discriminate.
+    rewrite (call_ok_mono _ _ _ _ _ Hrel (fun e => sm_wf_pre sm sg e Hwf) Hpm) in H0. discriminate.
 Qed.
 
 (* A complete run of a checked function, abstractly. *)
@@ -1361,18 +1491,18 @@ Proof.
   intros (body & Hf & Hex1 & Hb1 & Hc1 & Hf1 & Hex2).
   pose proof (Hall _ _ _ Hf) as Hok. unfold fn_ok in Hok.
   apply andb_true_iff in Hok as [_ Hok].
-  destruct (ai (s_pre sm) body a0) as [o1s|] eqn:Hab; [|discriminate].
+  destruct (ai (ctx_of sm) body a0) as [o1s|] eqn:Hab; [|discriminate].
   destruct (exec_sound _ _ _ _ _ Hex1 a0 o1s abs_rel_0 Hab) as [_ [a1 [Hin1 [Hr1 Hu1]]]].
   pose proof (proj1 (forallb_forall _ _) Hok _ Hin1) as Hx.
   unfold exit_ok in Hx; cbn [fst snd] in Hx.
-  assert (Hx' : match ai (s_pre sm) (unwind (a_defers a1)) (mkA (a_held a1) (a_flags a1) [] (a_dirty a1) (a_up a1) (a_slack a1)) with
+  assert (Hx' : match ai (ctx_of sm) (unwind (a_defers a1)) (mkA (a_held a1) (a_flags a1) [] (a_dirty a1) (a_up a1) (a_slack a1) []) with
                 | Some o2s => forallb (after_defers_ok sm (a_defers a1) o1) o2s
                 | None => false end = true) by (destruct o1; congruence).
   clear Hx.
-  destruct (ai (s_pre sm) (unwind (a_defers a1)) _) as [o2s|] eqn:Hu; [|discriminate].
-  pose proof Hr1 as [Hh1 [Hfl1 [Hd1 Hsl1]]].
+  destruct (ai (ctx_of sm) (unwind (a_defers a1)) _) as [o2s|] eqn:Hu; [|discriminate].
+  pose proof Hr1 as [Hh1 [Hfl1 [Hd1 [Hsl1 Hmn1]]]].
   rewrite Hd1 in Hex2.
-  destruct (exec_sound _ _ _ _ _ Hex2 (mkA (a_held a1) (a_flags a1) [] (a_dirty a1) (a_up a1) (a_slack a1)) o2s)
+  destruct (exec_sound _ _ _ _ _ Hex2 (mkA (a_held a1) (a_flags a1) [] (a_dirty a1) (a_up a1) (a_slack a1) []) o2s)
     as [Hnf2 [a2 [Hin2 [Hr2 Hu2]]]]; [repeat split; cbn; auto | exact Hu |].
   split; [exact Hnf2|]. exists a1, a2.
   split; [exact Hr1|]. split; [exact Hu1|]. split; [exact Hr2|]. split; [exact Hu2|].
@@ -1436,7 +1566,7 @@ Proof.
   - pose proof (all_ok_of_bool Hb) as Hall.
     pose proof (Hall _ _ _ Hf) as Hok. unfold fn_ok in Hok.
     apply andb_true_iff in Hok as [_ Hok].
-    destruct (ai (s_pre sm) body a0) as [o1s|] eqn:Hab; [|discriminate].
+    destruct (ai (ctx_of sm) body a0) as [o1s|] eqn:Hab; [|discriminate].
     destruct (exec_sound Hall _ _ _ _ _ Hex a0 o1s abs_rel_0 Hab) as [Hnf _]. congruence.
   - destruct (fn_run_sound (all_ok_of_bool Hb) _ _ _ _ _ _ Hrun) as [Hnf _]. congruence.
 Qed.
@@ -1478,6 +1608,185 @@ Proof.
   destruct (fn_run_sound (all_ok_of_bool Hb) _ _ _ _ _ _ Hrun) as [_ (a1 & a2 & _ & _ & _ & _ & Hy)].
   unfold after_defers_ok, panic_exit_ok in Hy; cbn [fst snd] in Hy. rewrite Hnp in Hy.
   destruct o1, o2; cbn in *; auto; discriminate.
+Qed.
+
+
+(* ------------------------------------------------------------------------ *)
+(* Atomic sections                                                          *)
+
+Definition asec_eqb (x y : asec) : bool :=
+  String.eqb (as_a x) (as_a y)
+  && match as_b x, as_b y with
+     | Some p, Some q => String.eqb p q
+     | None, None => true
+     | _, _ => false
+     end
+  && String.eqb (as_lock x) (as_lock y) && Bool.eqb (as_shared x) (as_shared y).
+
+Lemma asec_eqb_eq x y : asec_eqb x y = true -> x = y.
+Proof.
+  destruct x as [a b l sh], y as [a' b' l' sh']; unfold asec_eqb; cbn.
+  rewrite !andb_true_iff. intros [[[Ha Hb] Hl] Hs].
+  apply String.eqb_eq in Ha, Hl. apply eqb_prop in Hs. subst.
+  destruct b as [p|], b' as [q|]; try discriminate; [apply String.eqb_eq in Hb; subst|]; reflexivity.
+Qed.
+
+(* The executable judgement: function [f] passes its check (balance, floor,
+   panic paths, and every section declared for it), and [e] is one of the
+   sections declared for it. *)
+Definition atomic_section (f : string) (e : asec) : bool :=
+  match assoc f prog with
+  | Some (body, sm) => fn_ok body sm && existsb (asec_eqb e) (s_atomic sm)
+  | None => false
+  end.
+
+(* What the path semantics makes of a declared section (these are the
+   rules, read backwards): an event that opens or closes it faults unless
+   the mutex is held ... *)
+Lemma mark_fault_iff c t fr o fr' :
+  exec c (Mark t) fr o fr' -> (o = OFault <-> mark_ok c (slack fr) (held fr) t = false).
+Proof.
+  intros H; inversion H; subst; split; intros H'; congruence.
+Qed.
+
+Lemma mark_ok_holds c sl h t e :
+  mark_ok c sl h t = true -> In e (c_atomic c) -> as_a e = t \/ as_b e = Some t ->
+  holds (c_pre c) sl h (as_items e) = true.
+Proof.
+  unfold mark_ok. rewrite forallb_forall. intros H He Ht. specialize (H e He).
+  destruct Ht as [<- | Hb].
+  - rewrite String.eqb_refl in H. exact H.
+  - unfold is_b in H. rewrite Hb, String.eqb_refl, orb_true_r in H. exact H.
+Qed.
+
+(* ... the opening event leaves the section open ... *)
+Lemma mark_mon_step_other t m k j e :
+  j <> k -> is_open m k = true ->
+  is_open (if is_b e t then filter (fun x => negb (Nat.eqb x j)) m
+           else if String.eqb (as_a e) t
+                then match as_b e with Some _ => if is_open m j then m else j :: m | None => m end
+                else m) k = true.
+Proof.
+  intros Hne Ho. unfold is_open in *.
+  destruct (is_b e t).
+  - rewrite existsb_exists in *. destruct Ho as [x [Hx Hk]]. exists x; split; [|exact Hk].
+    apply filter_In; split; [exact Hx|]. apply Nat.eqb_eq in Hk; subst x.
+    apply negb_true_iff, Nat.eqb_neq. congruence.
+  - destruct (String.eqb (as_a e) t); [|exact Ho].
+    destruct (as_b e); [|exact Ho]. destruct (existsb (Nat.eqb j) m); [exact Ho|].
+    cbn. rewrite Ho. apply orb_true_r.
+Qed.
+
+Lemma fold_mark_keeps t k : forall l n m,
+  (forall j e, In (j, e) (indexed n l) -> j <> k) -> is_open m k = true ->
+  is_open (fold_left (fun m ke =>
+               let e := snd ke in
+               if is_b e t then filter (fun j => negb (Nat.eqb j (fst ke))) m
+               else if String.eqb (as_a e) t
+                    then match as_b e with
+                         | Some _ => if is_open m (fst ke) then m else fst ke :: m
+                         | None => m
+                         end
+                    else m) (indexed n l) m) k = true.
+Proof.
+  induction l as [|e l IH]; cbn; intros n m Hd Ho; [exact Ho|].
+  apply IH; [intros j e' Hin; apply (Hd j e'); right; exact Hin|].
+  apply mark_mon_step_other; [apply (Hd n e); left; reflexivity | exact Ho].
+Qed.
+
+Lemma indexed_ge {A} (l : list A) : forall n j x, In (j, x) (indexed n l) -> (n <= j)%nat.
+Proof.
+  induction l as [|y l IH]; cbn; intros n j x; [contradiction|].
+  intros [H | H]; [inversion H; subst; apply Nat.le_refl | apply IH in H; apply Nat.lt_le_incl, H].
+Qed.
+
+Lemma fold_mark_opens t b : forall l n m k e,
+  nth_error l k = Some e -> as_a e = t -> as_b e = Some b -> b <> t ->
+  is_open (fold_left (fun m ke =>
+               let e := snd ke in
+               if is_b e t then filter (fun j => negb (Nat.eqb j (fst ke))) m
+               else if String.eqb (as_a e) t
+                    then match as_b e with
+                         | Some _ => if is_open m (fst ke) then m else fst ke :: m
+                         | None => m
+                         end
+                    else m) (indexed n l) m) (n + k) = true.
+Proof.
+  induction l as [|e0 l IH]; intros n m k e Hn Ha Hb Hbt.
+  - destruct k; discriminate.
+  - destruct k as [|k]; cbn [indexed fold_left].
+    + cbn in Hn. inversion Hn; subst e0. cbn [fst snd].
+      rewrite Nat.add_0_r.
+      apply fold_mark_keeps.
+      * intros j e' Hin. apply indexed_ge in Hin. intro; subst j. exact (Nat.nle_succ_diag_l _ Hin).
+      * unfold is_b. rewrite Hb. destruct (String.eqb_spec b t) as [|_]; [contradiction|].
+        rewrite Ha, String.eqb_refl. unfold is_open.
+        destruct (existsb (Nat.eqb n) m) eqn:E; [exact E | cbn; rewrite Nat.eqb_refl; reflexivity].
+    + cbn in Hn. rewrite Nat.add_succ_r. change (S (n + k)) with (S n + k)%nat.
+      eapply IH; eassumption.
+Qed.
+
+Lemma mark_mon_opens c m t k e b :
+  nth_error (c_atomic c) k = Some e -> as_a e = t -> as_b e = Some b -> b <> t ->
+  is_open (mark_mon c m t) k = true.
+Proof. intros. unfold mark_mon. change k with (0 + k)%nat. eapply fold_mark_opens; eassumption. Qed.
+
+(* ... and while it is open, a release of its mutex and a call of a function
+   whose summary mentions its mutex are faults. *)
+Lemma rel_breaks_open c m k e i :
+  is_open m k = true -> nth_error (c_atomic c) k = Some e -> checked i = true -> snd i = as_lock e ->
+  rel_breaks c m i = true.
+Proof.
+  unfold is_open, rel_breaks, open_locks. intros Ho Hn Hc Hl. rewrite Hc; cbn.
+  apply existsb_exists. exists (as_lock e); split; [|rewrite Hl; apply String.eqb_refl].
+  apply existsb_exists in Ho as [x [Hx Hk]]. apply Nat.eqb_eq in Hk; subst x.
+  apply in_map_iff. exists k; split; [rewrite Hn; reflexivity | exact Hx].
+Qed.
+
+Lemma rel_fault_iff c i fr o fr' :
+  exec c (Rel i) fr o fr' -> (o = OFault <-> rel_ok c (slack fr) (mon fr) (held fr) i = false).
+Proof. intros H; inversion H; subst; split; intros H'; congruence. Qed.
+
+Lemma call_breaks_open c m k e sg smc :
+  is_open m k = true -> nth_error (c_atomic c) k = Some e -> In (as_lock e) (sum_locks sg smc) ->
+  call_breaks c m sg smc = true.
+Proof.
+  unfold is_open, call_breaks, open_locks. intros Ho Hn Hl.
+  apply existsb_exists. exists (as_lock e); split.
+  - apply existsb_exists in Ho as [x [Hx Hk]]. apply Nat.eqb_eq in Hk; subst x.
+    apply in_map_iff. exists k; split; [rewrite Hn; reflexivity | exact Hx].
+  - apply existsb_exists. exists (as_lock e); split; [exact Hl | apply String.eqb_refl].
+Qed.
+
+Lemma call_no_fault c f sg fr o fr' :
+  exec c (Call f sg) fr o fr' -> o <> OFault ->
+  exists body smc, assoc f prog = Some (body, smc) /\ call_ok c (slack fr) (mon fr) (held fr) sg smc = true.
+Proof.
+  intros H Hn; inversion H; subst; try congruence. eauto.
+Qed.
+
+(* Soundness of the judgement: if every function of the program passes its
+   check and [atomic_section f e] holds, then [e] is a declared section of
+   [f] and no run of [f] -- its body, any outcome -- faults; by the lemmas
+   above this means: at every [as_a e] and [as_b e] event of the run the mutex
+   [as_lock e] is held (exclusively, or at least shared), and from an
+   [as_a e] event to the next [as_b e] event, or to the end of the body, the
+   function neither releases the mutex nor calls a function whose summary
+   mentions it. *)
+Theorem atomic_section_sound :
+  forallb balanced (map fst prog) = true ->
+  forall f e, atomic_section f e = true ->
+  exists body sm,
+    assoc f prog = Some (body, sm) /\ In e (s_atomic sm) /\
+    forall o fr, exec (ctx_of sm) body frame0 o fr -> o <> OFault.
+Proof.
+  intros Hb f e Ha. unfold atomic_section in Ha.
+  destruct (assoc f prog) as [[body sm]|] eqn:Hf; [|discriminate].
+  apply andb_true_iff in Ha as [_ He].
+  exists body, sm. split; [reflexivity|]. split.
+  - apply existsb_exists in He as [x [Hx Hq]]. apply asec_eqb_eq in Hq; subst; exact Hx.
+  - intros o fr Hex ->. apply (balanced_no_fault Hb f).
+    exists body, sm. split; [exact Hf|]. left. eauto.
 Qed.
 
 End Semantics.
